@@ -10,8 +10,9 @@ mod sasl {
         match f { SaslServerFrame::Outcome(o) => Some(o.code), _ => None }
     }
 
-    /// C19 (bounded): PLAIN accepts iff the initial response is `authzid NUL user NUL pass [NUL ...]`
-    /// with user/pass byte-equal to the configured ones.
+    /// C19 (bounded): PLAIN accepts iff the initial response is exactly `[authzid] NUL user NUL pass` (RFC 4616: the password
+    /// contains no NUL, so a third NUL makes the response invalid) with user/pass byte-equal to the configured ones.
+    /// (An earlier version of this oracle accepted `... NUL pass NUL anything`, mirroring the code: D66.)
     #[kani::proof]
     #[kani::unwind(10)]
     fn plain_init_iff_valid() {
@@ -25,9 +26,9 @@ mod sasl {
         let mut k = 0;
         let mut i = 0;
         while i < n { if bytes[i] == 0 && k < 3 { idx[k] = i; k += 1; } i += 1; }
-        let valid = k >= 2 && {
+        let valid = k == 2 && {
             let u0 = idx[0] + 1; let u1 = idx[1];
-            let p0 = idx[1] + 1; let p1 = if k >= 3 { idx[2] } else { n };
+            let p0 = idx[1] + 1; let p1 = n;
             u1 - u0 == 2 && bytes[u0] == b'a' && bytes[u0 + 1] == b'b'
                 && p1 - p0 == 2 && bytes[p0] == b'c' && bytes[p0 + 1] == b'd'
         };
